@@ -49,6 +49,21 @@ Proof. intros Hfg. destruct m as [a|e]; [apply Hfg|reflexivity]. Qed.
 
 (* ------------------------------------------------------------------ *)
 (** * Comprehensions that never raise *)
+(* `x = a if c else b` written as an if/else statement that assigns x in both branches *)
+Lemma bind_if_ret {A B} (c : bool) (a b : A) (k : A -> M B) :
+  bind (if c then ret a else ret b) k = k (if c then a else b).
+Proof. destruct c; reflexivity. Qed.
+(* a list built by `l = []; for x in xs: l.append(<g x>)` whose element computation always returns *)
+Lemma loop_m_append_ret {X Y} (g : X -> Y) (body : list Y -> X -> M (ctl (list Y))) (l : list X) acc :
+  (forall a x, In x l -> body a x = ret (Continue (a ++ [g x])%list)) ->
+  for_list_m l acc body = ret (acc ++ map g l)%list.
+Proof.
+  revert acc. induction l as [|x r IH]; intros acc Hb; cbn [for_list_m map].
+  - rewrite app_nil_r. reflexivity.
+  - rewrite (Hb acc x (or_introl eq_refl)). cbn [bind ret]. rewrite IH.
+    + rewrite <- app_assoc. reflexivity.
+    + intros a y Hy. apply Hb. right. exact Hy.
+Qed.
 Lemma map_m_ret {X Y} (f : X -> M Y) (g : X -> Y) l :
   (forall x, In x l -> f x = ret (g x)) -> map_m f l = ret (map g l).
 Proof.
